@@ -1058,4 +1058,41 @@ pub fn gen(g: &mut Gen) {
             }
         }
     }
+    // ---- adversarial dimension names for the tensor entry points ------------------------------------
+    // the names the library uses internally ("r" for the reflected column, "row"/"column" of the
+    // matrix interop, "samples"/"features"), prefixes of one another, one-letter names and the empty
+    // name, in both positions; the factors must carry exactly the input's names
+    {
+        let mut pairs: Vec<[&'static str; 2]> = vec![
+            ["r", "c"], ["c", "r"], ["x", "r"], ["r", "x"], ["x", "c"], ["c", "x"], ["row", "x"], ["x", "row"],
+            ["column", "row"], ["x", "column"], ["column", "x"], ["i", "j"], ["j", "i"], ["_empty_", "x"],
+            ["x", "_empty_"], ["r", "_empty_"], ["samples", "features"], ["features", "samples"],
+            ["rows", "row"], ["row", "rows"], ["rr", "r"], ["a", "aa"],
+        ];
+        for _ in 0..(if g.thorough { 30 } else { 10 }) {
+            let two = adversarial_names(&mut g.rng, 2);
+            pairs.push([two[0], two[1]]);
+        }
+        let tensor_vias = ["tensor", "owned", "tensor_view", "view", "range"];
+        for names in pairs {
+            let n = g.rng.range(2, 3);
+            let spd = loop {
+                let mut a: Vec<Fp> = (0..n * n).map(|_| rand_fp(g)).collect();
+                symmetrise(n, &mut a);
+                if steer_chol::<Fp>(n, &a, None).0.is_none() {
+                    break a;
+                }
+            };
+            let (rows, cols) = *g.rng.pick(&[(2usize, 1usize), (2, 2), (3, 2), (3, 3)]);
+            let tall: Vec<Fp> = (0..rows * cols).map(|_| rand_fp(g)).collect();
+            for (alg, r, c, a) in [("chol", n, n, &spd), ("ldlt", n, n, &spd), ("qr", rows, cols, &tall)] {
+                let via = *g.rng.pick(&tensor_vias);
+                g.op(format!(
+                    "@ {} fp {} {} {} names={},{} via={}",
+                    alg, r, c, show_elems(a), names[0], names[1], via
+                ));
+                g.count(&format!("adversarial-names.{}", alg));
+            }
+        }
+    }
 }
